@@ -414,6 +414,35 @@ def eval_cases(ctx: Ctx, kernel: str, imports: list, cases: list, chunk: int = 4
     return len(bad_idx)
 
 
+def count_true(ctx: Ctx, kernel: str, imports: list, exprs: list, chunk: int = 400) -> Optional[int]:
+    """How many of the boolean Coq expressions evaluate to true (vm_compute inside coqc)?  Used to
+    count the explored cases that lie inside the class of a certificate-free theorem; a file that
+    does not evaluate is a broken obligation of the run."""
+    if not exprs:
+        return 0
+    wd = os.path.join(ctx.workdir, kernel)
+    os.makedirs(wd, exist_ok=True)
+    files = []
+    for ci in range(0, len(exprs), chunk):
+        path = os.path.join(wd, f"count_{ci // chunk}.v")
+        with open(path, "w") as fh:
+            fh.write("From V Require Import base.Prelude base.Strs " + " ".join(imports) + ".\n")
+            fh.write("Local Open Scope N_scope.\n")
+            fh.write("Definition bs : list bool := [\n" + ";\n".join(f" ({e})" for e in exprs[ci:ci + chunk]) + "\n].\n")
+            fh.write("Eval vm_compute in (List.length bs, List.length (List.filter (fun b : bool => b) bs)).\n")
+        files.append(path)
+    total = 0
+    with ThreadPoolExecutor(max_workers=NCPU) as ex:
+        for path, rc, out in ex.map(_run_case_file, [(f, wd) for f in files]):
+            m = re.search(r"= \((\d+)%?\w*, (\d+)%?\w*\)", " ".join(out.split()))
+            if rc != 0 or not m:
+                ctx.broken.append(Broken("correspondence", f"kernel {kernel}: class count did not evaluate",
+                                         f"{os.path.basename(path)}: {out[-500:]}"))
+                return None
+            total += int(m.group(2))
+    return total
+
+
 # ------------------------------------------------------------------ known findings / replay / evidence
 def load_findings(prop: str) -> list:
     data = json.load(open(os.path.join(VERIF, "known_findings.json")))
